@@ -118,7 +118,7 @@ var ruleO1 = &Rule{
 			for _, body := range bodies {
 				// handed-over expressions (by text) in this body and in closures defined in the same declaration
 				handed := map[string]token.Pos{}
-				alias := map[types.Object]string{}      // local → field text it aliases
+				alias := map[types.Object]string{}     // local → field text it aliases
 				carries := map[types.Object][]string{} // local holding a composite literal → slice fields / variables stored in it
 				// slice-typed fields / variables placed directly in a (pointer to a) composite literal
 				var litSources func(e ast.Expr) []string
